@@ -28,11 +28,62 @@ def run(ctx):
     import secrets as _secrets
     ok = ctx.build(['MPyC.Exec']) and ctx.check_props()
     rng = ctx.rng
-    ctx.rule = ('(a) exhaustive: every (field, t>=1, m, secret, dealer tape) for small fields, every coalition of size <= t; '
+    ctx.rule = ('(a) exhaustive: every (field, t>=1, m, batch of 1-2 secrets, every answer sequence of the randomness oracle with exact '
+                'probabilities) for small fields, every coalition of size <= t; '
                 '(b) replay: random (prime field, t, m, coalition, secret, target shares) -> Coq psi -> real random_split; '
                 'non-trivial when t >= 1 (all are)')
     ctx.explanation = 'bijection theorem over an abstract field; inverse replayed on thresha.random_split'
-    # ---- (a) exhaustive enumeration on the implementation
+    # ---- (a) exhaustive enumeration on the implementation: every sequence of answers of the randomness
+    #      oracle (whatever `secrets` function the code calls, with whatever argument), with exact probabilities
+    from fractions import Fraction
+
+    class NeedMore(Exception):
+        pass
+
+    class Oracle:
+        def __init__(self, prefix):
+            self.prefix, self.pos, self.prob = prefix, 0, Fraction(1)
+
+        def _next(self, n_outcomes):
+            if self.pos >= len(self.prefix):
+                e = NeedMore()
+                e.n = n_outcomes
+                raise e
+            v = self.prefix[self.pos]
+            self.pos += 1
+            self.prob /= n_outcomes
+            return v
+
+        def randbelow(self, n):
+            return self._next(n)
+
+        def randbits(self, k):
+            return self._next(1 << k)
+
+        def choice(self, seq):
+            return seq[self._next(len(seq))]
+
+        def token_bytes(self, n=32):
+            return self._next(256 ** n).to_bytes(n, 'little')
+
+    def all_runs(fn, limit):
+        """Depth-first enumeration of all oracle answer sequences; yields (result, probability)."""
+        stack = [()]
+        count = 0
+        while stack:
+            prefix = stack.pop()
+            orc = Oracle(prefix)
+            thresha.secrets = orc
+            try:
+                r = fn()
+            except NeedMore as e:
+                if e.n > limit:
+                    raise RuntimeError('oracle outcome space too large: %d' % e.n)
+                stack.extend(prefix + (v,) for v in range(e.n))
+                continue
+            count += 1
+            yield r, orc.prob
+
     small = [('GF(3)', finfields.GF(3), 3), ('GF(5)', finfields.GF(5), 5), ('GF(7)', finfields.GF(7), 7),
              ('GF(2^2)', finfields.GF(finfields.find_irreducible(2, 2)), 4),
              ('GF(2^3)', finfields.GF(finfields.find_irreducible(2, 3)), 8),
@@ -42,37 +93,40 @@ def run(ctx):
     for name, F, q in small:
         for m in range(2, min(maxm, q - 1) + 1):
             for t in range(1, m):
-                if q ** t > ctx.n(800, 5000):
-                    continue
-                coalitions = [C for r in range(1, t + 1) for C in itertools.combinations(range(m), r)]
-                ref = None
-                for s in range(q):
-                    hist = {C: {} for C in coalitions}
-                    for tape in itertools.product(range(q), repeat=t):
-                        tp = Tape(tape)
-                        thresha.secrets = tp
-                        sh = thresha.random_split(F, [F(s)], t, m)
-                        vals = [str(sh[i][0]) for i in range(m)]
+                for batch in (1, 2):
+                    if q ** (t * batch) * q ** batch > ctx.n(20000, 200000):
+                        continue
+                    coalitions = [C for r in range(1, t + 1) for C in itertools.combinations(range(m), r)]
+                    ref = None
+                    for ss in itertools.product(range(q), repeat=batch):
+                        hist = {C: {} for C in coalitions}
+                        total = Fraction(0)
+                        for sh, prob in all_runs(lambda: thresha.random_split(F, [F(s) for s in ss], t, m), 4096):
+                            vals = [tuple(str(v) for v in sh[i]) for i in range(m)]
+                            for C in coalitions:
+                                v = tuple(vals[i] for i in C)
+                                hist[C][v] = hist[C].get(v, 0) + prob
+                            total += prob
+                            n_enum += 1
                         for C in coalitions:
-                            v = tuple(vals[i] for i in C)
-                            hist[C][v] = hist[C].get(v, 0) + 1
-                        n_enum += 1
-                    for C in coalitions:
-                        want = q ** (t - len(C))
-                        if len(hist[C]) != q ** len(C) or set(hist[C].values()) != {want}:
-                            ctx.violation('view-not-uniform %s t=%d m=%d' % (name, t, m),
-                                          {'field': name, 't': t, 'm': m, 'secret': s, 'coalition': list(C),
-                                           'histogram': {str(k): v for k, v in list(hist[C].items())[:20]}})
-                    if ref is None:
-                        ref = hist
-                    elif hist != ref:
-                        ctx.violation('view-depends-on-secret %s t=%d m=%d' % (name, t, m),
-                                      {'field': name, 't': t, 'm': m, 'secret': s})
-                    ctx.case({'field': name, 't': t, 'm': m, 's': s, 'exhaustive_tapes': q ** t}, kind='exhaustive ' + name)
+                            want = Fraction(1, q ** (len(C) * batch))
+                            if total != 1 or len(hist[C]) != q ** (len(C) * batch) or set(hist[C].values()) != {want}:
+                                worst = sorted(hist[C].items(), key=lambda kv: kv[1])
+                                ctx.violation('view-not-uniform %s t=%d m=%d batch=%d' % (name, t, m, batch),
+                                              {'field': name, 't': t, 'm': m, 'secrets': list(ss), 'coalition': list(C),
+                                               'distinct_views': len(hist[C]), 'expected_views': q ** (len(C) * batch),
+                                               'least_likely': [str(worst[0][0]), str(worst[0][1])],
+                                               'most_likely': [str(worst[-1][0]), str(worst[-1][1])]})
+                        if ref is None:
+                            ref = hist
+                        elif hist != ref:
+                            ctx.violation('view-depends-on-secret %s t=%d m=%d batch=%d' % (name, t, m, batch),
+                                          {'field': name, 't': t, 'm': m, 'secrets': list(ss)})
+                        ctx.case({'field': name, 't': t, 'm': m, 'secrets': list(ss)}, kind='exhaustive ' + name)
     thresha.secrets = _secrets
     ctx.extra['exhaustive'] = True
     ctx.extra['dealer_tapes_enumerated'] = n_enum
-    ctx.log('exhaustive enumeration: %d (secret,tape) runs through random_split' % n_enum)
+    ctx.log('exhaustive enumeration: %d complete oracle-answer sequences through random_split' % n_enum)
     # ---- (b) replay of the explicit inverse
     primes = [5, 7, 11, 101, 257, 2**61 - 1, 18446744073709551557]
     cases, exprs = [], []
